@@ -71,7 +71,9 @@ h1 = {
              "user 0..2 : key 0..2 characters (thorough 3); host name 1..3 (thorough 5) characters / d.d.d.d / [::x] IPv6 literal of 3 (thorough 7) characters / empty authority; "
              "port absent or 1..5 decimal digits of a symbolic value in 1..65535; path, query, fragment absent or up to 3 (thorough 5) characters); every character symbolic within its RFC 3986 class",
     "instances": [inst(l, s) for l, s, _, _, _ in S_QUICK] + [inst(l, s, ["C20_BASIC=1"]) for l, s in H1_BASIC],
-    "thorough": {"instances": [inst(l, s) for l, s, _, _, _ in S_THOROUGH] + [inst(l, s, ["C20_BASIC=1"]) for l, s in H1_BASIC], "timeout": 1800},
+    # ksihttp_port1_frag_nopath is the shape of known finding F-C20-3 (parser refuses '#' directly after the authority):
+    # its accepting-path witness points are replaced by a "refused" witness, see h1_split.c
+    "thorough": {"instances": [inst(l, s, ["C20_KNOWN_FC20_3=1"] if l == "ksihttp_port1_frag_nopath" else []) for l, s, _, _, _ in S_THOROUGH] + [inst(l, s, ["C20_BASIC=1"]) for l, s in H1_BASIC], "timeout": 1800},
 }
 # exact-size allocation (env/ctx.c): memory safety of the component copies, one shape, thorough only
 h1x = dict(h1)
